@@ -47,6 +47,12 @@ theorem C01_current_filter (ext : Nat → Bytes → Bool) (tt : UInt8) (htt : tt
   rw [filterDNAttrsDecoded_current]
   exact Filter.decompile_encode tt htt fl
 
+/-- value fidelity: equality filters on one attribute that reach the handler as the same string were the same
+    filter (likewise for >=, <=, ~=: `Filter.ava_render_injective`); `Filter.escape` has the left inverse
+    `Filter.unescape`, so no two assertion values are ever confused by the escaping -/
+theorem C01_filter_value_faithful (a v v' : Bytes) (h : Filter.render (.eq a v) = Filter.render (.eq a v')) : v = v' :=
+  Filter.ava_render_injective a [61] v v' (by simpa [Filter.render] using h)
+
 /-- "(cn:dn:=foo)" -/
 def exDnFilter : Filter.Filter := .ext none (some [99, 110]) [102, 111, 111] true
 
